@@ -1,8 +1,8 @@
 #!/bin/bash
 # tools/benigntest.sh <C..> "<tests>"   validate a behaviour-preserving change from /tmp/seed_<id>ok/seed_out:
 # demo passes with and without, tree tests identical, then the property's check must stay quiet with the patch on /repo
-id="$1"; tests="$2"
-wt=/tmp/seed_${id}ok; out=$wt/seed_out
+id="$1"; tests="$2"; sfx="${3:-ok}"; dst="$id"; [ "$sfx" = "ok2" ] && dst="${id}b"
+wt=/tmp/seed_${id}${sfx}; out=$wt/seed_out
 [ -f $out/patch.diff ] || { echo "no patch"; exit 2; }
 cd $wt && git checkout -q -- src && git apply --check $out/patch.diff || { echo "patch does not apply"; exit 2; }
 export PYTHONDONTWRITEBYTECODE=1
@@ -26,12 +26,12 @@ for sd in 1 2; do
   res="$res seed$sd:rc=$rc:$sig;"
 done
 cd /repo && git checkout -q -- . && git status --short
-mkdir -p /verif/benign/$id && cp $out/patch.diff $out/demo.py /verif/benign/$id/
-/venv/bin/python - "$id" "$d0" "$d1" "$same" "$res" <<'PY'
+mkdir -p /verif/benign/$dst && cp $out/patch.diff $out/demo.py /verif/benign/$dst/
+/venv/bin/python - "$id" "$d0" "$d1" "$same" "$res" "$sfx" "$dst" <<'PY'
 import json,sys
-id_,d0,d1,same,res=sys.argv[1:6]
-m=json.load(open('/tmp/seed_%sok/seed_out/meta.json'%id_))
+id_,d0,d1,same,res,sfx,dst=sys.argv[1:8]
+m=json.load(open('/tmp/seed_%s%s/seed_out/meta.json'%(id_,sfx)))
 m['verified']={'demo_exit_without_patch':int(d0),'demo_exit_with_patch':int(d1),'existing_tests_identical':same=='yes',
   'check_on_/repo_with_patch_applied':res.strip()}
-json.dump(m,open('/verif/benign/%s/meta.json'%id_,'w'),indent=1)
+json.dump(m,open('/verif/benign/%s/meta.json'%dst,'w'),indent=1)
 PY
